@@ -21,7 +21,7 @@ output uncropped; containers that crop what they are given (padding, panel, tabl
 * table: "columns free to wrap" exactly as the statement says (no `width`, `min_width`, `no_wrap`, no active ratio).
 
 `CfgOk cfg`: the width function is rich's (`Gen.cellWidths`, regenerated from rich/_cell_widths.py on every run), tables draw
-`leading` as separate lines (today's code), and the poison is empty (the model's "outside my domain" marker; the driver answers
+`leading` as separate lines (fix dd342b5; what /repo contains), and the poison is empty (the model's "outside my domain" marker; the driver answers
 `unmodelled` for those requests, e.g. a panel title that is not a simple one-line text).
 -/
 namespace RichModel.C01
@@ -69,7 +69,10 @@ theorem tree_fits_whatever_the_labels (cfg : Cfg) (ok : CfgOk cfg) (root : TNode
 
 /-! ## The known finding F23 (`progressbar-no-newline`), machine-checked on the model -/
 
-/-- today's code under a truecolor console -/
+/-- A configuration under a truecolor console for the witnesses and examples below.  It was written as "the code in /repo" before
+fixes f5f2be9 and f7ecf83 landed: `rstripCountsChars`, `columnsZeroCount` and `WVariant.fixed true` are still the as-found
+variants of those two defects (none of the statements below depends on them; `CfgOk` only asks for rich's width table, the repaired
+`leading` and an empty poison), and `Flags.repaired` repairs the first three table defects. -/
 def wCfg : Cfg :=
   { cw := cwR, env := { consoleWidth := 80, colorSystem := 3 }, v := { zeroWidthChild := false, ruleRightRepeat := false, rstripCountsChars := true, columnsZeroCount := true }, wv := Wrap.WVariant.fixed true, fl := Flags.repaired }
 
